@@ -158,12 +158,14 @@ impl Compound {
             *value *= Rational::new(10u32, 1u32).pow(state.prefix * state.power);
 
             if let Some(conversion) = name.conversion() {
+                check_offset(&other.names, state.power, conversion)?;
                 apply_conversion(state.power, value, conversion)?;
             }
         }
 
         for (name, state) in &self.names {
             if let Some(conversion) = name.conversion() {
+                check_offset(&self.names, state.power, conversion)?;
                 apply_conversion(-state.power, value, conversion)?;
             }
 
@@ -248,6 +250,7 @@ impl Compound {
             *lhs *= Rational::new(10u32, 1u32).pow(state.prefix * state.power);
 
             if let Some(conversion) = name.conversion() {
+                check_offset(&self.names, state.power, conversion)?;
                 apply_conversion(state.power, lhs, conversion)?;
             }
         }
@@ -256,6 +259,7 @@ impl Compound {
             *rhs *= Rational::new(10u32, 1u32).pow(state.prefix * state.power);
 
             if let Some(conversion) = name.conversion() {
+                check_offset(&other.names, state.power, conversion)?;
                 apply_conversion(state.power, rhs, conversion)?;
             }
         }
@@ -318,6 +322,7 @@ impl Compound {
                     // original factor modifier, which we apply to mod_power to
                     // get the original power back. Then we multiply by `-1`
                     // because we want to shed the multiples here.
+                    check_offset(names, mod_power, conversion)?;
                     apply_conversion(-mod_power, out, conversion)?;
                 }
             }
@@ -518,6 +523,21 @@ impl fmt::Display for Compound {
     fn fmt(&self, f: &mut fmt::Formatter<'_>) -> fmt::Result {
         self.display(false).fmt(f)
     }
+}
+
+/// Scales with a zero point of their own (like `°C` and `°F`) can only be
+/// converted when they stand alone with a power of one. The zero point has no
+/// meaning in something like `°C/s`, `m*°C` or `°C²`.
+fn check_offset(
+    names: &BTreeMap<Unit, State>,
+    power: i32,
+    conversion: Conversion,
+) -> Result<(), CompoundError> {
+    if !matches!(conversion, Conversion::Factor(..)) && (names.len() != 1 || power != 1) {
+        return Err(CompoundError);
+    }
+
+    Ok(())
 }
 
 fn apply_conversion(
